@@ -113,7 +113,14 @@ func keyOID(k string) string {
 }
 
 // genOID draws an encodable OID with 2..7 arcs.
+// OIDs that software tends to special-case
+var wellKnownOIDs = []string{"0.9.2342.19200300.100.1.25", "1.2.840.113549.1.9.1", "0.9.2342.19200300.100.1.1", "2.5.4.42", "2.5.4.4", "2.5.4.12",
+	"2.5.4.97", "1.3.6.1.4.1.311.60.2.1.3", "2.5.29.17", "1.3.6.1.5.5.7.3.1", "2.5.4.3", "2.5.4.6"}
+
 func genOID(t *rapid.T, label string) string {
+	if rapid.IntRange(0, 5).Draw(t, label+"-wellknown") == 0 {
+		return rapid.SampledFrom(wellKnownOIDs).Draw(t, label+"-wk")
+	}
 	first := rapid.IntRange(0, 2).Draw(t, label+"-a0")
 	max2 := 39
 	if first == 2 {
